@@ -78,6 +78,12 @@ def gen_namespace(rng, nsname, thorough, deps, want_blocks=True, main=True, gobj
     copyfree = []
     nrec = rng.randint(1, 4 if thorough else 3)
     records = rng.sample(RECORD_NAMES, nrec)
+    nested = None
+    if rng.random() < 0.3:
+        # two types whose underscored names nest (widget / widget_item): a function called
+        # <p>_widget_item_... must go to the longest matching type whatever the arrival order
+        nested = records[0]
+        records.append(nested + 'Item')
     enums = rng.sample(ENUM_NAMES, rng.randint(0, 2))
     flags = rng.sample(FLAG_NAMES, rng.randint(0, 1))
     cbs = rng.sample(CB_NAMES, rng.randint(0, 2))
@@ -260,6 +266,15 @@ def gen_namespace(rng, nsname, thorough, deps, want_blocks=True, main=True, gobj
         if want_blocks:
             block(['%s:' % fn['name'], '@shared: (transfer none): the shared thing', '', 'Uses it.', '',
                    'Returns: (transfer none): the same'], fn['file'])
+
+    if nested:
+        sn = snake(nested)
+        RI = ['ptr', ['named', P + nested + 'Item']]
+        RP0 = ['ptr', ['named', P + nested]]
+        D({'k': 'function', 'name': '%s_%s_item_create' % (p, sn), 'ret': RI, 'params': []}, rng.choice(apis))
+        D({'k': 'function', 'name': '%s_%s_item_get_owner' % (p, sn), 'ret': RP0, 'params': [['self', RI]]}, rng.choice(apis))
+        D({'k': 'function', 'name': '%s_%s_item_count' % (p, sn), 'ret': ['basic', 'int'], 'params': [['self', RP0]]}, rng.choice(apis))
+        D({'k': 'function', 'name': '%s_%s_item_defaults' % (p, sn), 'ret': ['void'], 'params': []}, rng.choice(apis))
 
     # ---- a chain of callbacks that cannot be introspected: A takes a va_list, B takes A, and
     # functions/methods take A or B.  Introspectability has to propagate along the chain
